@@ -1695,5 +1695,652 @@ theorem createCache_group (t : RawTree) (hT : TreeOK t) (lk : Lookup) (R Q : Lis
       simp only [assemble, hg, hnR, hnQ, haq, hany]
       simp
 
+/-! ### what `specGenes` says, clause by clause -/
+
+/-- nearest first, stop as soon as the minimum is reached: the accumulated list
+is the start list plus the first `k` ancestor lists, `k` least with at least `m`
+query genes (or all of them) -/
+theorem specAcc_prefix (Q : List Gene) (m : Nat) (lists : List (List Gene)) (cur : List Gene)
+    (hcur : countQ Q cur < m) :
+    ∃ k, k ≤ lists.length ∧ specAcc Q m lists cur = cur ++ (lists.take k).flatten ∧
+      (k < lists.length → countQ Q (cur ++ (lists.take k).flatten) ≥ m) ∧
+      ∀ j, j < k → countQ Q (cur ++ (lists.take j).flatten) < m := by
+  induction lists generalizing cur with
+  | nil => exact ⟨0, by simp, by simp [specAcc], by simp, by simp⟩
+  | cons la rest ih =>
+    simp only [specAcc]
+    by_cases hge : countQ Q (cur ++ la) ≥ m
+    · refine ⟨1, by simp, by simp [hge], by simp [hge], ?_⟩
+      intro j hj
+      have : j = 0 := by omega
+      subst this; simpa using hcur
+    · simp only [hge, if_false]
+      obtain ⟨k, hk, he, h1, h2⟩ := ih (cur ++ la) (by omega)
+      refine ⟨k + 1, by simp [hk], by simp [he, List.append_assoc], ?_, ?_⟩
+      · intro hlt
+        simp only [List.take_succ_cons, List.flatten_cons, ← List.append_assoc]
+        exact h1 (by simpa using hlt)
+      · intro j hj
+        cases j with
+        | zero => simpa using hcur
+        | succ j' =>
+          simp only [List.take_succ_cons, List.flatten_cons, ← List.append_assoc]
+          exact h2 j' (by omega)
+
+theorem mem_specAcc (Q : List Gene) (m : Nat) (lists : List (List Gene)) (cur : List Gene) (g : Gene) :
+    (g ∈ cur → g ∈ specAcc Q m lists cur) ∧
+    (g ∈ specAcc Q m lists cur → g ∈ cur ∨ ∃ la ∈ lists, g ∈ la) := by
+  induction lists generalizing cur with
+  | nil => simp [specAcc]
+  | cons la rest ih =>
+    simp only [specAcc]
+    split
+    · simp only [List.mem_append, List.mem_cons, exists_eq_or_imp]
+      exact ⟨Or.inl, fun h => h.elim Or.inl (fun h => Or.inr (Or.inl h))⟩
+    · constructor
+      · intro h; exact (ih (cur ++ la)).1 (by simp [h])
+      · intro h
+        rcases (ih (cur ++ la)).2 h with h | ⟨lb, hlb, h⟩
+        · rcases List.mem_append.1 h with h | h
+          · exact Or.inl h
+          · exact Or.inr ⟨la, by simp, h⟩
+        · exact Or.inr ⟨lb, by simp [hlb], h⟩
+
+/-- own markers survive, nothing outside the query is used -/
+theorem specGenes_own (t : RawTree) (lk : Lookup) (Q : List Gene) (m : Nat) (p : PKey) (g : Gene) :
+    (g ∈ (get? lk p).getD [] → g ∈ Q → g ∈ specGenes t lk Q m p) ∧
+    (g ∈ specGenes t lk Q m p → g ∈ Q) := by
+  unfold specGenes
+  cases p with
+  | none => simp only [mem_interQ]; exact ⟨fun h1 h2 => ⟨h1, h2⟩, fun h => h.2⟩
+  | some ln =>
+    obtain ⟨l, n⟩ := ln
+    simp only
+    split
+    · split
+      · simp only [mem_interQ, List.mem_append]
+        exact ⟨fun h1 h2 => ⟨Or.inl ((mem_specAcc Q m _ _ g).1 h1), h2⟩, fun h => h.2⟩
+      · simp only [mem_interQ]
+        exact ⟨fun h1 h2 => ⟨(mem_specAcc Q m _ _ g).1 h1, h2⟩, fun h => h.2⟩
+    · simp only [mem_interQ]; exact ⟨fun h1 h2 => ⟨h1, h2⟩, fun h => h.2⟩
+
+/-- enough own markers, or the root: exactly the own markers present in the query -/
+theorem specGenes_enough (t : RawTree) (lk : Lookup) (Q : List Gene) (m : Nat) (p : PKey)
+    (h : p = none ∨ countQ Q ((get? lk p).getD []) ≥ m) :
+    specGenes t lk Q m p = interQ Q ((get? lk p).getD []) := by
+  unfold specGenes
+  cases p with
+  | none => rfl
+  | some ln =>
+    obtain ⟨l, n⟩ := ln
+    have : ¬ countQ Q ((get? lk (some (l, n))).getD []) < m := by
+      rcases h with h | h
+      · cases h
+      · omega
+    simp [this]
+
+/-- every gene used comes from the parent's own list, from the list of one of
+its ancestors, or from the root's list -/
+theorem specGenes_sources (t : RawTree) (lk : Lookup) (Q : List Gene) (m : Nat) (l : Level) (n : Node)
+    (g : Gene) (h : g ∈ specGenes t lk Q m (some (l, n))) :
+    g ∈ (get? lk (some (l, n))).getD [] ∨
+    (∃ a ∈ ancestorKeys t l n, ∃ la, get? lk a = some la ∧ g ∈ la) ∨
+    g ∈ (get? lk none).getD [] := by
+  unfold specGenes at h
+  simp only at h
+  have src : ∀ x, x ∈ specAcc Q m ((ancestorKeys t l n).filterMap (get? lk)) ((get? lk (some (l, n))).getD []) →
+      x ∈ (get? lk (some (l, n))).getD [] ∨ (∃ a ∈ ancestorKeys t l n, ∃ la, get? lk a = some la ∧ x ∈ la) := by
+    intro x hx
+    rcases (mem_specAcc Q m _ _ x).2 hx with h | ⟨la, hla, h⟩
+    · exact Or.inl h
+    · obtain ⟨a, ha, hga⟩ := List.mem_filterMap.1 hla
+      exact Or.inr ⟨a, ha, la, hga, h⟩
+  split at h
+  · split at h
+    · rcases List.mem_append.1 ((mem_interQ Q _ g).1 h).1 with h | h
+      · rcases src g h with h | h
+        · exact Or.inl h
+        · exact Or.inr (Or.inl h)
+      · exact Or.inr (Or.inr h)
+    · rcases src g ((mem_interQ Q _ g).1 h).1 with h | h
+      · exact Or.inl h
+      · exact Or.inr (Or.inl h)
+  · exact Or.inl ((mem_interQ Q _ g).1 h).1
+
+/-! ### `serialize_markers` -/
+
+/-- what one entry of the output table is -/
+def ReportedEntry (t : RawTree) (c : Cache) (k : PKey) (g : List Gene) : Prop :=
+  match k with
+  | none => reportedGroup c none = .ok g
+  | some (l, n) => ∃ ch, childrenOf t (some (l, n)) = .ok ch ∧
+      (if ch.length < 2 then g = [] else reportedGroup c (some (l, n)) = .ok g)
+
+theorem serializeNodes_spec (t : RawTree) (c : Cache) (nodes : List (Level × Node))
+    (out : List (PKey × List Gene)) (h : serializeNodes t c nodes = .ok out) :
+    out.map (·.1) = nodes.map some ∧ ∀ e ∈ out, ReportedEntry t c e.1 e.2 := by
+  induction nodes generalizing out with
+  | nil => simp only [serializeNodes, Except.ok.injEq] at h; subst h; simp
+  | cons ln rest ih =>
+    obtain ⟨l, n⟩ := ln
+    simp only [serializeNodes] at h
+    cases hc : childrenOf t (some (l, n)) with
+    | error e => simp [hc] at h
+    | ok ch =>
+      simp only [hc] at h
+      by_cases hl : ch.length < 2
+      · simp only [hl, if_true] at h
+        cases hr : serializeNodes t c rest with
+        | error e => simp [hr] at h
+        | ok r =>
+          simp only [hr, Except.ok.injEq] at h
+          subst h
+          obtain ⟨i1, i2⟩ := ih r hr
+          refine ⟨by simp [i1], ?_⟩
+          intro e he
+          rcases List.mem_cons.1 he with rfl | he
+          · exact ⟨ch, hc, by simp [hl]⟩
+          · exact i2 e he
+      · simp only [hl, if_false] at h
+        cases hg : reportedGroup c (some (l, n)) with
+        | error e => simp [hg] at h
+        | ok g =>
+          simp only [hg] at h
+          cases hr : serializeNodes t c rest with
+          | error e => simp [hr] at h
+          | ok r =>
+            simp only [hr, Except.ok.injEq] at h
+            subst h
+            obtain ⟨i1, i2⟩ := ih r hr
+            refine ⟨by simp [i1], ?_⟩
+            intro e he
+            rcases List.mem_cons.1 he with rfl | he
+            · exact ⟨ch, hc, by simp [hl, hg]⟩
+            · exact i2 e he
+
+/-- the output table has one entry per parent of the taxonomy (`'None'` last),
+each of them the group of the cache, or `[]` for fewer than two children -/
+theorem serialize_spec (t : RawTree) (c : Cache) (out : List (PKey × List Gene))
+    (h : serialize t c = .ok out) :
+    (∀ k, k ∈ out.map (·.1) ↔ k ∈ t.allParents) ∧ ∀ e ∈ out, ReportedEntry t c e.1 e.2 := by
+  unfold serialize at h
+  simp only at h
+  cases hn : serializeNodes t c (t.hierarchy.dropLast.flatMap (fun l => (t.nodesAt l).map (fun n => (l, n)))) with
+  | error e => simp [hn] at h
+  | ok r =>
+    simp only [hn] at h
+    cases hg : reportedGroup c none with
+    | error e => simp [hg] at h
+    | ok g =>
+      simp only [hg, Except.ok.injEq] at h
+      subst h
+      obtain ⟨i1, i2⟩ := serializeNodes_spec t c _ r hn
+      constructor
+      · intro k
+        simp only [List.map_append, i1, List.map_cons, List.map_nil, List.mem_append, List.mem_map,
+          List.mem_flatMap, List.mem_cons, List.not_mem_nil, or_false, RawTree.allParents]
+        constructor
+        · rintro (⟨⟨l, n⟩, ⟨l', hl', n', hn', he⟩, rfl⟩ | rfl)
+          · cases he; exact Or.inr ⟨l, hl', n, hn', rfl⟩
+          · exact Or.inl rfl
+        · rintro (rfl | ⟨l, hl, n, hn', rfl⟩)
+          · exact Or.inr rfl
+          · exact Or.inl ⟨(l, n), ⟨l, hl, n, hn', rfl⟩, rfl⟩
+      · intro e he
+        rcases List.mem_append.1 he with he | he
+        · exact i2 e he
+        · simp only [List.mem_cons, List.not_mem_nil, or_false] at he
+          subst he
+          exact hg
+
+/-! ### the flatten union -/
+
+theorem flattenLookup_spec (lk : Lookup) :
+    ∃ genes, flattenLookup lk = [(none, genes)] ∧ genes.Pairwise (· < ·) ∧
+      ∀ g, g ∈ genes ↔ ∃ e ∈ lk, g ∈ e.2 := by
+  refine ⟨_, rfl, strict_of_sorted_nodup (sortNat_sorted _) (sortNat_nodup (nodup_dedup _)), ?_⟩
+  intro g
+  simp [mem_sortNat, mem_dedup, List.mem_flatMap]
+
+/-! ### provenance: validation never invents a gene -/
+
+theorem mem_set (lk : Lookup) (k : PKey) (v : List Gene) (e : PKey × List Gene) (h : e ∈ set lk k v) :
+    e ∈ lk ∨ e = (k, v) := by
+  unfold set at h
+  split at h
+  · obtain ⟨e0, he0, rfl⟩ := List.mem_map.1 h
+    by_cases hk : (e0.1 == k) = true
+    · simp only [hk, if_true]
+      simp only [beq_iff_eq] at hk
+      exact Or.inr (by rw [hk])
+    · simp only [hk, Bool.false_eq_true, if_false]; exact Or.inl he0
+  · rcases List.mem_append.1 h with h | h
+    · exact Or.inl h
+    · exact Or.inr (by simpa using h)
+
+/-- every gene of the table comes from some list of `lk` -/
+def GenesFrom (lk cur : Lookup) : Prop := ∀ e ∈ cur, ∀ g ∈ e.2, ∃ e0 ∈ lk, g ∈ e0.2
+
+theorem patchOf_sources (t : RawTree) (Q : List Gene) (m : Nat) (lk : Lookup) (l : Level) (n : Node)
+    (own : List Gene) (g : Gene) (h : g ∈ (patchOf t Q m lk l n own).1) :
+    g ∈ own ∨ ∃ e0 ∈ lk, g ∈ e0.2 := by
+  rw [patchOf_fst] at h
+  simp only at h
+  have src : ∀ x, x ∈ specAcc Q m ((ancestorKeys t l n).filterMap (get? lk)) own →
+      x ∈ own ∨ ∃ e0 ∈ lk, x ∈ e0.2 := by
+    intro x hx
+    rcases (mem_specAcc Q m _ _ x).2 hx with h | ⟨la, hla, h⟩
+    · exact Or.inl h
+    · obtain ⟨a, _, hga⟩ := List.mem_filterMap.1 hla
+      exact Or.inr ⟨(a, la), mem_of_get? lk a la hga, h⟩
+  split at h
+  · rcases List.mem_append.1 h with h | h
+    · exact src g h
+    · cases hr : get? lk none with
+      | none => simp [hr] at h
+      | some lr =>
+        simp only [hr, Option.getD_some] at h
+        exact Or.inr ⟨(none, lr), mem_of_get? lk none lr hr, h⟩
+  · exact src g h
+
+theorem patchAndCount_genesFrom (t : RawTree) (Q : List Gene) (m : Nat) (lk : Lookup) (st : VState)
+    (p : PKey) (own : List Gene) (hown : ∀ g ∈ own, ∃ e0 ∈ lk, g ∈ e0.2) (h : GenesFrom lk st.lookup) :
+    GenesFrom lk (patchAndCount t Q m lk st p own).lookup := by
+  unfold patchAndCount
+  split
+  · cases p with
+    | none => simp only; split <;> exact h
+    | some ln =>
+      obtain ⟨l, n⟩ := ln
+      simp only
+      have hs := patchOf_sources t Q m lk l n own
+      generalize patchOf t Q m lk l n own = P at hs
+      obtain ⟨new, pw⟩ := P
+      simp only at hs ⊢
+      have hset : GenesFrom lk (set st.lookup (some (l, n)) (sortedInter Q new)) := by
+        intro e he g hg
+        rcases mem_set _ _ _ e he with he | rfl
+        · exact h e he g hg
+        · have := ((mem_sortedInter Q new g).1 hg).1
+          rcases hs g this with h1 | h1
+          · exact hown g h1
+          · exact h1
+      cases pw with
+      | nil => simp only [List.isEmpty_nil, if_true]; split <;> exact h
+      | cons a pw' =>
+        simp only [List.isEmpty_cons, Bool.false_eq_true, if_false]
+        split <;> exact hset
+  · exact h
+
+theorem step_genesFrom (t : RawTree) (Q : List Gene) (m : Nat) (lk : Lookup) (st st' : VState) (p : PKey)
+    (h : GenesFrom lk st.lookup) (hs : validateStepWith t Q m (fun _ => lk) st p = .ok st') :
+    GenesFrom lk st'.lookup := by
+  unfold validateStepWith at hs
+  cases hc : childrenOf t p with
+  | error e => simp [hc] at hs
+  | ok ch =>
+    simp only [hc] at hs
+    split at hs
+    · cases hs; exact h
+    · cases hg : get? st.lookup p with
+      | some own =>
+        simp only [hg] at hs
+        split at hs
+        · cases hs; exact h
+        · cases hs
+          apply patchAndCount_genesFrom _ _ _ _ _ _ _ _ h
+          intro g hg'
+          exact h (p, own) (mem_of_get? _ _ _ hg) g hg'
+      | none =>
+        simp only [hg] at hs
+        split at hs
+        · cases hs; exact h
+        · cases hs
+          apply patchAndCount_genesFrom
+          · simp
+          · intro e he g hg'
+            rcases mem_set _ _ _ e he with he | rfl
+            · exact h e he g hg'
+            · simp at hg'
+
+theorem foldSteps_genesFrom (t : RawTree) (Q : List Gene) (m : Nat) (lk : Lookup) (ps : List PKey)
+    (st stF : VState) (h : GenesFrom lk st.lookup)
+    (hf : foldSteps (validateStepWith t Q m (fun _ => lk)) ps st = .ok stF) : GenesFrom lk stF.lookup := by
+  induction ps generalizing st with
+  | nil => simp only [foldSteps, Except.ok.injEq] at hf; subst hf; exact h
+  | cons p ps ih =>
+    simp only [foldSteps] at hf
+    cases hs : validateStepWith t Q m (fun _ => lk) st p with
+    | error e => simp [hs] at hf
+    | ok st1 =>
+      simp only [hs] at hf
+      exact ih st1 (step_genesFrom t Q m lk st st1 p h hs) hf
+
+/-- every gene of the validated table is listed somewhere in the original one -/
+theorem validateLookup_genesFrom (t : RawTree) (hT : TreeOK t) (Q : List Gene) (m : Nat) (lk lk' : Lookup)
+    (h : validateLookup t Q m lk = .ok lk') : GenesFrom lk lk' := by
+  have hself : ∀ p ∈ t.allParents.reverse, p ∉ readKeys t p :=
+    fun p hp => hT.selfFree p (List.mem_reverse.1 hp)
+  have e := foldSteps_orig t Q m lk t.allParents.reverse hT.deepestFirst hself { lookup := lk }
+    (fun _ _ _ _ => rfl)
+  unfold validateLookup at h
+  rw [e] at h
+  cases hf : foldSteps (validateStepWith t Q m (fun _ => lk)) t.allParents.reverse { lookup := lk } with
+  | error e' => simp [hf] at h
+  | ok stF =>
+    simp only [hf, finish] at h
+    have hl : lk' = stF.lookup := by
+      split at h
+      · split at h <;> cases h
+      · cases h; rfl
+    subst hl
+    exact foldSteps_genesFrom t Q m lk _ _ stF (fun e he g hg => ⟨e, he, hg⟩) hf
+
+/-! ### the table is a dict: keys stay distinct -/
+
+def KeysNodup (lk : Lookup) : Prop := (lk.map (·.1)).Nodup
+
+theorem get?_of_mem (lk : Lookup) (h : KeysNodup lk) (k : PKey) (l : List Gene) (hm : (k, l) ∈ lk) :
+    get? lk k = some l := by
+  induction lk with
+  | nil => cases hm
+  | cons e es ih =>
+    obtain ⟨k0, l0⟩ := e
+    have hn : k0 ∉ es.map (·.1) ∧ (es.map (·.1)).Nodup := by
+      unfold KeysNodup at h; rw [List.map_cons] at h; exact List.nodup_cons.1 h
+    simp only [get?, List.lookup_cons]
+    rcases List.mem_cons.1 hm with he | he
+    · cases he; simp
+    · have : k ≠ k0 := by
+        rintro rfl
+        exact hn.1 (List.mem_map.2 ⟨(k, l), he, rfl⟩)
+      have hb : (k == k0) = false := by simp [this]
+      simp only [hb]
+      exact ih hn.2 he
+
+theorem hasKey_iff_mem (lk : Lookup) (k : PKey) : hasKey lk k = true ↔ k ∈ lk.map (·.1) := by
+  simp [hasKey, List.any_eq_true]
+
+theorem keysNodup_set (lk : Lookup) (k : PKey) (v : List Gene) (h : KeysNodup lk) : KeysNodup (set lk k v) := by
+  unfold set
+  split
+  · have : (lk.map (fun e => if e.1 == k then (e.1, v) else e)).map (·.1) = lk.map (·.1) := by
+      rw [List.map_map]
+      apply List.map_congr_left
+      intro e _
+      simp only [Function.comp]
+      split <;> rfl
+    unfold KeysNodup; rw [this]; exact h
+  · rename_i hk
+    unfold KeysNodup
+    rw [List.map_append, List.nodup_append]
+    refine ⟨h, by simp, ?_⟩
+    intro a ha b hb
+    simp only [List.map_cons, List.map_nil, List.mem_cons, List.not_mem_nil, or_false] at hb
+    subst hb
+    rintro rfl
+    exact hk ((hasKey_iff_mem lk a).2 ha)
+
+theorem patchAndCount_keysNodup (t : RawTree) (Q : List Gene) (m : Nat) (lk : Lookup) (st : VState)
+    (p : PKey) (own : List Gene) (h : KeysNodup st.lookup) :
+    KeysNodup (patchAndCount t Q m lk st p own).lookup := by
+  unfold patchAndCount
+  split
+  · cases p with
+    | none => simp only; split <;> exact h
+    | some ln =>
+      obtain ⟨l, n⟩ := ln
+      simp only
+      generalize patchOf t Q m lk l n own = P
+      obtain ⟨new, pw⟩ := P
+      simp only
+      cases pw with
+      | nil => simp only [List.isEmpty_nil, if_true]; split <;> exact h
+      | cons a pw' =>
+        simp only [List.isEmpty_cons, Bool.false_eq_true, if_false]
+        split <;> exact keysNodup_set _ _ _ h
+  · exact h
+
+theorem step_keysNodup (t : RawTree) (Q : List Gene) (m : Nat) (lk : Lookup) (st st' : VState) (p : PKey)
+    (h : KeysNodup st.lookup) (hs : validateStepWith t Q m (fun _ => lk) st p = .ok st') :
+    KeysNodup st'.lookup := by
+  unfold validateStepWith at hs
+  cases hc : childrenOf t p with
+  | error e => simp [hc] at hs
+  | ok ch =>
+    simp only [hc] at hs
+    split at hs
+    · cases hs; exact h
+    · cases hg : get? st.lookup p with
+      | some own =>
+        simp only [hg] at hs
+        split at hs
+        · cases hs; exact h
+        · cases hs; exact patchAndCount_keysNodup _ _ _ _ _ _ _ h
+      | none =>
+        simp only [hg] at hs
+        split at hs
+        · cases hs; exact h
+        · cases hs
+          exact patchAndCount_keysNodup _ _ _ _ _ _ _ (keysNodup_set _ _ _ h)
+
+theorem validateLookup_keysNodup (t : RawTree) (hT : TreeOK t) (Q : List Gene) (m : Nat) (lk lk' : Lookup)
+    (hk : KeysNodup lk) (h : validateLookup t Q m lk = .ok lk') : KeysNodup lk' := by
+  have hself : ∀ p ∈ t.allParents.reverse, p ∉ readKeys t p :=
+    fun p hp => hT.selfFree p (List.mem_reverse.1 hp)
+  have e := foldSteps_orig t Q m lk t.allParents.reverse hT.deepestFirst hself { lookup := lk }
+    (fun _ _ _ _ => rfl)
+  unfold validateLookup at h
+  rw [e] at h
+  have fold : ∀ (ps : List PKey) (st stF : VState), KeysNodup st.lookup →
+      foldSteps (validateStepWith t Q m (fun _ => lk)) ps st = .ok stF → KeysNodup stF.lookup := by
+    intro ps
+    induction ps with
+    | nil => intro st stF h0 hf; simp only [foldSteps, Except.ok.injEq] at hf; subst hf; exact h0
+    | cons p ps ih =>
+      intro st stF h0 hf
+      simp only [foldSteps] at hf
+      cases hs : validateStepWith t Q m (fun _ => lk) st p with
+      | error e => simp [hs] at hf
+      | ok st1 =>
+        simp only [hs] at hf
+        exact ih st1 stF (step_keysNodup t Q m lk st st1 p h0 hs) hf
+  cases hf : foldSteps (validateStepWith t Q m (fun _ => lk)) t.allParents.reverse { lookup := lk } with
+  | error e' => simp [hf] at h
+  | ok stF =>
+    simp only [hf, finish] at h
+    have hl : lk' = stF.lookup := by
+      split at h
+      · split at h <;> cases h
+      · cases h; rfl
+    subst hl
+    exact fold _ _ stF hk hf
+
+/-! ### when `create_marker_cache_from_specified_markers` raises -/
+
+theorem intersectAll_ok_imp (Q : List Gene) (consulted : Option (List PKey)) (lk final : Lookup)
+    (h : intersectAll Q consulted lk = .ok final) :
+    ∀ e ∈ lk, ¬ (isConsultedKey consulted e.1 = true ∧ interQ Q e.2 = [] ∧ e.2 ≠ []) := by
+  intro e he hbad
+  induction lk generalizing final with
+  | nil => cases he
+  | cons e0 es ih =>
+    obtain ⟨k, l⟩ := e0
+    rw [intersectAll_cons] at h
+    by_cases hh : (isConsultedKey consulted k && (interQ Q l).isEmpty && !l.isEmpty) = true
+    · simp [hh] at h
+    · simp only [hh, Bool.false_eq_true, if_false] at h
+      cases hr : intersectAll Q consulted es with
+      | error e' => simp [hr] at h
+      | ok r =>
+        rcases List.mem_cons.1 he with rfl | he
+        · apply hh
+          simp only [Bool.and_eq_true, List.isEmpty_iff, Bool.not_eq_true', List.isEmpty_eq_false_iff]
+          exact ⟨⟨hbad.1, hbad.2.1⟩, hbad.2.2⟩
+        · exact ih r hr he
+
+theorem specGenes_nil_countQ (t : RawTree) (lk : Lookup) (Q : List Gene) (m : Nat) (p : PKey)
+    (h : specGenes t lk Q m p = []) : countQ Q ((get? lk p).getD []) = 0 := by
+  rw [countQ_eq_zero]
+  intro g hg hq
+  have := (specGenes_own t lk Q m p g).1 hg hq
+  rw [h] at this; cases this
+
+/-- the only errors the cache creation can end with -/
+theorem createCache_error_class (t : RawTree) (hT : TreeOK t) (lk : Lookup) (R Q : List Gene) (m : Nat)
+    (e : MErr) (h : createCache (some t) lk R Q m = .error e) :
+    e = .noMarkersAnyLevel ∨ e = .validating ∨ e = .noQueryOverlap ∨ e = .notInReference := by
+  rw [createCache_some] at h
+  cases hv : validateLookup t Q m lk with
+  | error e' =>
+    simp only [hv, Except.error.injEq] at h
+    subst h
+    rcases (validateLookup_error t hT Q m lk e' hv).1 with h | h
+    · exact Or.inl h
+    · exact Or.inr (Or.inl h)
+  | ok lk' =>
+    obtain ⟨cons, hc⟩ := consultedOf_ok t t.allParents hT.childrenOk
+    simp only [hv, hc] at h
+    cases hi : intersectAll Q (some cons) lk' with
+    | error e' =>
+      simp only [hi, Except.error.injEq] at h
+      subst h
+      exact Or.inr (Or.inr (Or.inl (intersectAll_error Q _ lk' e' hi).1))
+    | ok final =>
+      simp only [hi] at h
+      cases hm : missingRef R lk' with
+      | true =>
+        simp only [hm, if_true, Except.error.injEq] at h
+        exact Or.inr (Or.inr (Or.inr h.symm))
+      | false =>
+        simp only [hm, Bool.false_eq_true, if_false] at h
+        have hf := intersectAll_ok_eq Q (some cons) lk' final hi
+        subst hf
+        have hR := (missingRef_false_iff R lk').1 hm
+        obtain ⟨gs, hgs⟩ := writeGroups_ok R Q (lk'.map (fun e => (e.1, interQ Q e.2))) (by
+          intro e he g hg
+          obtain ⟨e0, he0, rfl⟩ := List.mem_map.1 he
+          have := (mem_interQ Q e0.2 g).1 hg
+          exact ⟨hR e0 he0 g this.1, this.2⟩)
+        simp [writeCache, hgs] at h
+
+/-- **no spurious rejection**: a dict-like table all of whose listed genes are
+reference genes, with `min_markers ≥ 1`, is accepted as soon as no consulted
+parent is in the error condition (root listed and non-empty; every consulted
+parent ends with a marker of the query) -/
+theorem createCache_complete (t : RawTree) (hT : TreeOK t) (lk : Lookup) (R Q : List Gene) (m : Nat)
+    (hm : 1 ≤ m) (hk : KeysNodup lk)
+    (hval : ∀ p ∈ t.allParents, Consulted t p → ¬ errAt t lk Q m p)
+    (hR : ∀ e ∈ lk, ∀ g ∈ e.2, g ∈ R) :
+    ∃ c, createCache (some t) lk R Q m = .ok c := by
+  obtain ⟨lk', hv⟩ := (validateLookup_ok_iff t hT Q m lk).2 hval
+  obtain ⟨cons, hc⟩ := consultedOf_ok t t.allParents hT.childrenOk
+  have hk' := validateLookup_keysNodup t hT Q m lk lk' hk hv
+  have hfrom := validateLookup_genesFrom t hT Q m lk lk' hv
+  have hR' : ∀ e ∈ lk', ∀ g ∈ e.2, g ∈ R := by
+    intro e he g hg
+    obtain ⟨e0, he0, hg0⟩ := hfrom e he g hg
+    exact hR e0 he0 g hg0
+  have hint := intersectAll_ok_iff Q (some cons) lk' (by
+    rintro ⟨k, l⟩ he ⟨h1, h2, _⟩
+    simp only [isConsultedKey, List.contains_iff_mem] at h1
+    obtain ⟨hp, hcons⟩ := (consultedOf_spec t _ cons hc k).1 h1
+    have hget := get?_of_mem lk' hk' k l he
+    have hspec : specGenes t lk Q m k = [] := by
+      apply List.eq_nil_iff_forall_not_mem.2
+      intro g hg
+      have := ((validateLookup_entries t hT Q m lk lk' hv).1 k hp hcons g).2 hg
+      simp only [hget, Option.getD_some] at this
+      exact (interQ_eq_nil Q l).1 h2 g this.1 this.2
+    have h0 := specGenes_nil_countQ t lk Q m k hspec
+    exact hval k hp hcons (Or.inr ⟨by omega, hspec⟩))
+  have hmiss : missingRef R lk' = false := (missingRef_false_iff R lk').2 hR'
+  obtain ⟨gs, hgs⟩ := writeGroups_ok R Q (lk'.map (fun e => (e.1, interQ Q e.2))) (by
+    intro e he g hg
+    obtain ⟨e0, he0, rfl⟩ := List.mem_map.1 he
+    have := (mem_interQ Q e0.2 g).1 hg
+    exact ⟨hR' e0 he0 g this.1, this.2⟩)
+  refine ⟨{ groups := gs
+            allQuery := RawTree.sortNat (dedup (gs.flatMap (fun g => g.2.map (·.2))))
+            allRef := RawTree.sortNat (dedup (gs.flatMap (fun g => g.2.map (·.1))))
+            refNames := R, queryNames := Q }, ?_⟩
+  rw [createCache_some]
+  simp only [hv, hc, hint, hmiss, Bool.false_eq_true, if_false, writeCache, hgs]
+
+/-- a consulted parent in the error condition ends the run -/
+theorem createCache_rejects_errAt (t : RawTree) (hT : TreeOK t) (lk : Lookup) (R Q : List Gene) (m : Nat)
+    (p : PKey) (hp : p ∈ t.allParents) (hc : Consulted t p) (he : errAt t lk Q m p) :
+    ∃ e, createCache (some t) lk R Q m = .error e := by
+  rw [createCache_some]
+  cases hv : validateLookup t Q m lk with
+  | error e => exact ⟨e, rfl⟩
+  | ok lk' => exact absurd he ((validateLookup_ok_iff t hT Q m lk).1 ⟨lk', hv⟩ p hp hc)
+
+/-- a root without usable markers ends the run (any `min_markers`) -/
+theorem createCache_rejects_root (t : RawTree) (hT : TreeOK t) (lk : Lookup) (R Q : List Gene) (m : Nat)
+    (hc : Consulted t none) (h0 : interQ Q ((get? lk none).getD []) = []) :
+    ∃ e, createCache (some t) lk R Q m = .error e := by
+  have hp : none ∈ t.allParents := by simp [RawTree.allParents]
+  by_cases he : errAt t lk Q m none
+  · exact createCache_rejects_errAt t hT lk R Q m none hp hc he
+  · -- only possible with min_markers = 0 and a non-empty list: the cache writer refuses it
+    rw [createCache_some]
+    cases hv : validateLookup t Q m lk with
+    | error e => exact ⟨e, rfl⟩
+    | ok lk' =>
+      obtain ⟨cons, hcc⟩ := consultedOf_ok t t.allParents hT.childrenOk
+      simp only [hcc]
+      cases hi : intersectAll Q (some cons) lk' with
+      | error e => exact ⟨e, rfl⟩
+      | ok final =>
+        exfalso
+        have hroot := validateLookup_root t hT Q m lk lk' hv
+        cases hg : get? lk none with
+        | none => exact he (Or.inl ⟨rfl, by simp [hg]⟩)
+        | some own =>
+          have hne : own ≠ [] := fun h => he (Or.inl ⟨rfl, by simp [hg, h]⟩)
+          rw [hg] at hroot
+          refine intersectAll_ok_imp Q (some cons) lk' final hi (none, own) (mem_of_get? lk' none own hroot) ⟨?_, ?_, hne⟩
+          · simp only [isConsultedKey, List.contains_iff_mem]
+            exact (consultedOf_spec t _ cons hcc none).2 ⟨hp, hc⟩
+          · simpa [hg] using h0
+
+/-- a listed marker that is in the query but unknown to the reference ends the
+run (whatever key lists it, consulted or not) -/
+theorem createCache_rejects_foreign (t : RawTree) (hT : TreeOK t) (lk : Lookup) (R Q : List Gene) (m : Nat)
+    (hk : KeysNodup lk) (k : PKey) (l : List Gene) (hkl : (k, l) ∈ lk) (g : Gene) (hg : g ∈ l)
+    (hq : g ∈ Q) (hr : g ∉ R) :
+    ∃ e, createCache (some t) lk R Q m = .error e := by
+  rw [createCache_some]
+  cases hv : validateLookup t Q m lk with
+  | error e => exact ⟨e, rfl⟩
+  | ok lk' =>
+    obtain ⟨cons, hcc⟩ := consultedOf_ok t t.allParents hT.childrenOk
+    simp only [hcc]
+    cases hi : intersectAll Q (some cons) lk' with
+    | error e => exact ⟨e, rfl⟩
+    | ok final =>
+      simp only
+      have hget := get?_of_mem lk hk k l hkl
+      -- the gene is still listed under the same key after validation
+      have hstill : ∃ l', (k, l') ∈ lk' ∧ g ∈ l' := by
+        by_cases hcons : k ∈ t.allParents ∧ Consulted t k
+        · have h1 := (specGenes_own t lk Q m k g).1 (by simpa [hget] using hg) hq
+          have h2 := ((validateLookup_entries t hT Q m lk lk' hv).1 k hcons.1 hcons.2 g).2 h1
+          cases hg' : get? lk' k with
+          | none => simp [hg'] at h2
+          | some l' =>
+            simp only [hg', Option.getD_some] at h2
+            exact ⟨l', mem_of_get? lk' k l' hg', h2.1⟩
+        · have := (validateLookup_entries t hT Q m lk lk' hv).2 k hcons
+          rw [hget] at this
+          exact ⟨l, mem_of_get? lk' k l this, hg⟩
+      obtain ⟨l', hl', hgl'⟩ := hstill
+      have : missingRef R lk' = true := by
+        cases hm : missingRef R lk' with
+        | true => rfl
+        | false => exact absurd ((missingRef_false_iff R lk').1 hm (k, l') hl' g hgl') hr
+      exact ⟨.notInReference, by simp [this]⟩
+
 end Markers
 end CTM
